@@ -50,7 +50,9 @@ def isDatetimeLit (s : List Char) : Bool :=
 /-- Rust's `{:?}` of a string, for the characters the harness sends (backslash and quote escaped) -/
 def showStrDebug (s : List Char) : String :=
   "\"" ++ String.ofList (s.flatMap (fun c => if c = '\\' then ['\\', '\\'] else if c = '"' then ['\\', '"']
-    else if c = '\n' then ['\\', 'n'] else if c = '\t' then ['\\', 't'] else if c = '\r' then ['\\', 'r'] else [c])) ++ "\""
+    else if c = '\n' then ['\\', 'n'] else if c = '\t' then ['\\', 't'] else if c = '\r' then ['\\', 'r']
+    else if c.toNat = 0 then ['\\', '0']
+    else if c.toNat < 32 ∨ c.toNat = 127 then ['\\', 'u', '{'] ++ (Nat.toDigits 16 c.toNat) ++ ['}'] else [c])) ++ "\""
 
 partial def showOp : QL.Op → String
   | .any => "Any" | .null => "Null" | .tru => "True" | .fls => "False"
@@ -63,6 +65,13 @@ partial def showOp : QL.Op → String
   | .ltd l => s!"BeforeDatetime({String.ofList l})" | .led l => s!"AtOrBeforeDatetime({String.ofList l})"
   | .not o => s!"Not({showOp o})"
   | .or os => "Or([" ++ ", ".intercalate (os.map showOp) ++ "])"
+
+/-- the same, strings in hex: for the lines that carry arbitrary text (constraints, queries) -/
+partial def showOpHex : QL.Op → String
+  | .eq s => s!"Equals({hexOf s})"
+  | .not o => s!"Not({showOpHex o})"
+  | .or os => "Or([" ++ ", ".intercalate (os.map showOpHex) ++ "])"
+  | o => showOp o
 
 def showQual : QL.Qual → String | .normal => "N" | .metadata => "M"
 
@@ -78,9 +87,9 @@ def showCn : QL.Cn → String
   | .textVar v => s!"textvar {hexOf v}"
   | .regex s => s!"regex {hexOf s}"
   | .dataKey set key q => s!"datakey {hexOf set} {hexOf key} {showQual q}"
-  | .keyValue set key o q => s!"keyvalue {hexOf set} {hexOf key} {showQual q} {showOp o}"
+  | .keyValue set key o q => s!"keyvalue {hexOf set} {hexOf key} {showQual q} {showOpHex o}"
   | .dataVar v q => s!"datavar {hexOf v} {showQual q}"
-  | .keyValueVar v o q => s!"keyvaluevar {hexOf v} {showQual q} {showOp o}"
+  | .keyValueVar v o q => s!"keyvaluevar {hexOf v} {showQual q} {showOpHex o}"
 
 /-- canonical rendering of a SELECT query -/
 partial def showQ : QL.Q → String
